@@ -229,6 +229,19 @@ _amend("C19", "text", "(R19.1-R19.12,", "(R19.1-R19.14,")
 _amend("C20", "text", "(R20.1-R20.8", "(R20.1-R20.9")
 _amend("C20", "tech", "provenance classification of mutated paths", "provenance classification of mutated paths, typestate witness rule for the backup cleanup (variables assigned only after the backup rename)")
 
+# after the sixth pass
+_amend("C01", "text", "(R01.1-R01.18,", "(R01.1-R01.19,")
+_amend("C01", "text", "Decides eighteen structural", "Decides nineteen structural")
+_amend("C01", "text", "an assignment is folded into a `var` statement only for a `var`-declared name. Does not decide", "an assignment is folded into a `var` statement only for a `var`-declared name, and a destructuring item is moved to the front of a var list only past items without initializer. Does not decide")
+_amend("C02", "text", "(R02.1-R02.8, DESIGN.md §4 C02)", "(R02.1-R02.9, DESIGN.md §4 C02; R02.9 reports one known finding: `with` in a nested function does not stop the renaming of the enclosing functions' locals)")
+_amend("C03", "text", "(R03.1-R03.7 incl. R03.5c, DESIGN.md §4 C03):", "(R03.1-R03.9 incl. R03.5c, DESIGN.md §4 C03):")
+_amend("C03", "text", "Decides seven local clauses", "Decides nine local clauses")
+_amend("C03", "text", "The trait tables are decided under C17.", "End tags are dropped without look-ahead only where nothing but a closing sibling can follow (not rt/rp); the body start tag and the colgroup tags are dropped only after a look-ahead at the next element. The trait tables are decided under C17.")
+_amend("C05", "text", "(R05.1-R05.15,", "(R05.1-R05.16,")
+_amend("C10", "text", "(R10.1-R10.8,", "(R10.1-R10.9,")
+_amend("C10", "text", "Decides eight structural clauses", "Decides nine structural clauses")
+_amend("C19", "text", "(R19.1-R19.14,", "(R19.1-R19.15,")
+
 
 NOT_APPLICABLE = {
  "C18": "DataURI/Mediatype correctness is about decoded byte values and length comparisons between encodings; no structural clause separates a right "
